@@ -1109,12 +1109,22 @@ def _o_accounting(w):
     req, keys = d["request"], d["keys"]
     ans = sign(req, KM(keys))[0]
     added = any(len(a.partial_sigs) > len(r.partial_sigs) or (a.taproot_key_spend_signature and not
-                r.taproot_key_spend_signature) for r, a in zip(req.inputs, ans.inputs))
+                r.taproot_key_spend_signature) or
+                len(a.taproot_script_spend_signatures) > len(r.taproot_script_spend_signatures)
+                for r, a in zip(req.inputs, ans.inputs))
     before = (req.serialize(), ans.serialize())
+    anonymous = any(a.taproot_key_spend_signature and not r.taproot_key_spend_signature and
+                    a.taproot_internal_key not in a.taproot_hd_key_paths for r, a in zip(req.inputs, ans.inputs))
     try:
         who = M.new_signers(req, ans)
+    except BTClibValueError as e:
+        if anonymous and "no key origin" in str(e):
+            return True, "a key-path signature whose internal key has no stated origin: refused, as documented"
+        return False, f"new_signers raised {type(e).__name__}: {e}"
     except Exception as e:  # noqa: BLE001
         return False, f"new_signers raised {type(e).__name__}: {e}"
+    if anonymous:
+        return False, "new_signers attributed a key-path signature nothing in the psbt states the origin of"
     if bool(who) != added or not who <= {b"\xaa\xbb\xcc\xdd"}:
         return False, f"new_signers={[x.hex() for x in who]} although signatures added={added}"
     if M.new_signers(req, req):
@@ -1125,7 +1135,8 @@ def _o_accounting(w):
         M.assert_signed(ans, allow_partial=True) if added else None
     except Exception as e:  # noqa: BLE001
         return False, f"assert_signed refused a signed psbt: {e}"
-    unsigned = all(not i.partial_sigs and not i.taproot_key_spend_signature for i in req.inputs)
+    unsigned = all(not i.partial_sigs and not i.taproot_key_spend_signature and not i.taproot_script_spend_signatures
+                   for i in req.inputs)
     if unsigned:
         try:
             M.assert_signed(req)
